@@ -35,6 +35,7 @@ type authScript struct {
 	Kind    string                `json:"kind"`    // api (a batch request) | storage (a download through a batch action)
 	ActHost string                `json:"acthost"` // storage: the identity the action's href names
 	Form    string                `json:"form"`    // how redirects spell Location: abs | netpath | path
+	Cache   bool                  `json:"cache"`   // the in-process credential cache stands in front of the helper
 }
 
 type authEvent struct {
@@ -221,11 +222,15 @@ func cmdAuth(args []string) {
 			fmt.Fprintln(os.Stderr, "client:", err)
 			os.Exit(4)
 		}
-		c.Credentials = &recHelper{names: names, emit: func(ev, host string) {
+		rec := &recHelper{names: names, emit: func(ev, host string) {
 			mu.Lock()
 			defer mu.Unlock()
 			enc.Encode(authEvent{Ev: ev, Host: host, N: nreq})
 		}}
+		c.Credentials = rec
+		if s.Cache {
+			c.Credentials = creds.NewCredentialHelpers([]creds.CredentialHelper{creds.NewCredentialCacher(), rec})
+		}
 		result := "ok"
 		func() {
 			defer func() {
